@@ -402,3 +402,275 @@ def _mk_switch_init(n):
 
 for _n in (0, 1, 2, 3):
     contract(SW + ":DemandSwitch.__init__#pairs(%d)" % _n, props=["C08"])(_mk_switch_init(_n))
+
+
+# ---- RangeSelector._compile_lookup: establishes lookup_inv --------------------------------------------------------------------------
+Lookup = TSeq(Entry, "dict-items")
+
+
+def _sym_rule(ctx, name):
+    sv = ctx.typed(z3.Const("p_rules_%s" % name, Z.Val), Rule)
+    return sv
+
+
+def _lookup_post(c, tbl, base, ths, rls):
+    n = len(ths)
+    return {"ranges-start-at-zero-end-at-infinity-and-follow-each-other-with-ascending-thresholds": lookup_inv(c, tbl),
+            "one-range-per-rule-plus-the-base-range": tbl.len == n + 1,
+            "the-base-rule-has-the-first-range": rule(tbl, 0).t == base.t,
+            "every-rule-sits-on-the-range-that-starts-at-its-own-threshold":
+                c.And(*[c.Or(*[c.And(low(tbl, j) == ths[k], rule(tbl, j).t == rls[k].t) for j in range(1, n + 1)]) for k in range(n)]) if n else True}
+
+
+def _mk_compile_lookup(n):
+    class compile_lookup:
+        __doc__ = ("RangeSelector._compile_lookup for %d (threshold, rule) pair(s) given in ANY order with ANY finite thresholds: the table it returns satisfies the "
+                   "representation invariant `lookup_inv` that get_rule and Stepwise.run take as their precondition, and every rule sits on its own threshold; two equal "
+                   "thresholds are a TypeError (sorted() compares the rules), a smallest threshold equal to the implicit lower bound 0 is a ValueError" % n)
+        body_key = STEP + ":RangeSelector._compile_lookup"
+        params = {"base": Rule,
+                  "rules": lambda ctx: _VT([_VT([ctx.typed(z3.Const("p_rules_threshold%d" % k, Z.Val), NumFin), _sym_rule(ctx, "rule%d" % k)]) for k in range(n)])}
+        result = Lookup
+
+        def writes(c, base, rules):
+            return []
+
+        def ensures(c, base, rules, result):
+            return _lookup_post(c, result, base, [rules[k][0] for k in range(n)], [rules[k][1] for k in range(n)])
+
+        raises = {"TypeError": lambda c, base, rules, exc: c.Or(*[rules[a][0].r == rules[b][0].r for a in range(n) for b in range(a + 1, n)]) if n > 1 else False,
+                  "ValueError": lambda c, base, rules, exc: c.Or(*[rules[k][0].r == 0 for k in range(n)]) if n else False}
+    return compile_lookup
+
+
+for _n in (0, 1, 2, 3):
+    contract(STEP + ":RangeSelector._compile_lookup#rules(%d)" % _n, props=["C08"])(_mk_compile_lookup(_n))
+
+
+# ---- Stepwise.__init__: the constructor establishes the precondition of Stepwise.run --------------------------------------------------
+def _mk_stepwise_init(n):
+    class init:
+        __doc__ = ("Stepwise(target, base, *%d (threshold, rule) pair(s) in ANY order, interval=...): RangeSelector.__init__ and _compile_lookup are INLINED, so this is the "
+                   "whole construction - afterwards the selector's table satisfies `lookup_inv` (the precondition of get_rule and Stepwise.run), holds the base rule first "
+                   "and every rule on its own threshold, and the controller acts on the given target with the given interval" % n)
+        body_key = STEP + ":Stepwise.__init__"
+        new_object = "self"
+        params = {"self": Stepw, "target": SPool, "base": Rule,
+                  "*rules": lambda ctx: _VT([_VT([ctx.typed(z3.Const("p_rules_threshold%d" % k, Z.Val), NumFin), _sym_rule(ctx, "rule%d" % k)]) for k in range(n)]),
+                  "interval": NumFin}
+
+        def writes(c, self, target, base, rules, interval):
+            return [(self, f) for f in ("target", "interval", "_selector")]
+
+        def ensures(c, self, target, base, rules, interval):
+            out = _lookup_post(c, self._selector._lookup, base, [rules[k][0] for k in range(n)], [rules[k][1] for k in range(n)])
+            out["a-new-selector-of-its-own"] = c.And(self._selector.cls_is(STEP + ":RangeSelector"), Z.Val.id(self._selector.t) >= c.ctx.alloc0)
+            out["acts-on-the-given-target-with-the-given-interval"] = c.And(self.target.t == target.t, self.interval.same(interval))
+            return out
+
+        raises = {"TypeError": lambda c, self, target, base, rules, interval, exc: c.Or(*[rules[a][0].r == rules[b][0].r for a in range(n) for b in range(a + 1, n)]) if n > 1 else False,
+                  "ValueError": lambda c, self, target, base, rules, interval, exc: c.Or(*[rules[k][0].r == 0 for k in range(n)]) if n else False}
+    return init
+
+
+for _n in (0, 1, 2, 3):
+    contract(STEP + ":Stepwise.__init__#rules(%d)" % _n, props=["C08"])(_mk_stepwise_init(_n))
+
+
+# ---- the decorator interface: a skeleton called with a pool builds the controller from the rules registered so far -------------------
+UStepw = TObj(STEP + ":UnboundStepwise", base=Rule, rules=TAny(), _thresholds=TAny())
+
+
+def _mk_ustep_call(n, with_interval):
+    class call:
+        __doc__ = ("UnboundStepwise skeleton with %d registered rule(s) (ANY order, ANY finite thresholds) called with a pool%s: builds a NEW Stepwise on that pool from the "
+                   "base rule and exactly the registered rules (whole construction inlined: its table satisfies `lookup_inv`, every rule on its own threshold); "
+                   "interval is the given one, else Stepwise's default 1" % (n, " and an interval" if with_interval else ""))
+        body_key = STEP + ":UnboundStepwise.__call__"
+        params = {"self": UStepw, "target": SPool, "interval": NumFin if with_interval else TNone()}
+        result = TAny()
+        has_events = True
+
+        def setup(ctx, I, bound):
+            rules = _VL([_VT([ctx.typed(z3.Const("p_rules_threshold%d" % k, Z.Val), NumFin), _sym_rule(ctx, "rule%d" % k)]) for k in range(n)])
+            I.setattr(bound["self"], "rules", rules)
+            ctx.ghost["c08_rules"] = list(rules.items)
+        setup = staticmethod(setup)
+
+        def writes(c, self, target, interval):
+            return []
+
+        def ensures(c, self, target, interval, result):
+            rules = c.ctx.ghost["c08_rules"]
+            rv = c.view_term(result.t, Stepw, c.new_heap)
+            ths = [c.view(p.items[0], c.new_heap) for p in rules]
+            rls = [c.view(p.items[1], c.new_heap) for p in rules]
+            out = _lookup_post(c, rv._selector._lookup, c.old(self).base, ths, rls)
+            out["a-new-Stepwise-controller"] = c.And(rv.cls_is(STEP + ":Stepwise"), Z.Val.id(result.t) >= c.ctx.alloc0)
+            out["on-the-given-pool-with-the-given-interval-else-the-default"] = c.And(rv.target.t == target.t, rv.interval.same(interval) if with_interval else rv.interval == 1)
+            out["the-skeleton-is-not-modified"] = c.unchanged(self, "base", "rules", "_thresholds")
+            return out
+
+        raises = {"TypeError": lambda c, self, target, interval, exc: _ustep_ties(c, n), "ValueError": lambda c, self, target, interval, exc: _ustep_zero(c, n)}
+    return call
+
+
+def _ustep_ties(c, n):
+    rules = c.ctx.ghost["c08_rules"]
+    ths = [c.view(p.items[0], c.old_heap) for p in rules]
+    return c.Or(*[ths[a].r == ths[b].r for a in range(n) for b in range(a + 1, n)]) if n > 1 else False
+
+
+def _ustep_zero(c, n):
+    rules = c.ctx.ghost["c08_rules"]
+    ths = [c.view(p.items[0], c.old_heap) for p in rules]
+    return c.Or(*[t.r == 0 for t in ths]) if n else False
+
+
+for _n, _wi in [(0, False), (1, True), (2, False), (2, True), (3, False)]:
+    contract(STEP + ":UnboundStepwise.__call__#rules(%d)%s" % (_n, "+interval" if _wi else ""), props=["C08"])(_mk_ustep_call(_n, _wi))
+
+
+def _mk_ustep_add(n, with_rule):
+    class add:
+        __doc__ = ("UnboundStepwise.add on a skeleton with %d registered rule(s), %s: a threshold that is (numerically) already registered is a ValueError and nothing changes; "
+                   "otherwise %s" % (n, "rule given" if with_rule else "no rule given (decorator form)",
+                                     "the (threshold, rule) pair is APPENDED to the rules - all earlier pairs stay, in order - the threshold is recorded and the rule itself is returned"
+                                     if with_rule else "nothing changes and the result is add with this threshold pre-set, to be applied to the rule"))
+        body_key = STEP + ":UnboundStepwise.add"
+        params = {"self": UStepw, "rule": Rule if with_rule else TNone(), "supply": NumFin}
+        result = TAny()
+
+        def setup(ctx, I, bound):
+            ths = [ctx.typed(z3.Const("p_rules_threshold%d" % k, Z.Val), NumFin) for k in range(n)]
+            rules = _VL([_VT([ths[k], _sym_rule(ctx, "rule%d" % k)]) for k in range(n)])
+            from pyvc.values import VSet as _VS
+            tset = _VS(list(ths))
+            I.setattr(bound["self"], "rules", rules)
+            I.setattr(bound["self"], "_thresholds", tset)
+            ctx.ghost["c08_rules"] = list(rules.items)
+            ctx.ghost["c08_displays"] = (rules, tset)
+        setup = staticmethod(setup)
+
+        def requires(c, self, rule, supply):
+            rules = c.ctx.ghost["c08_rules"]
+            ths = [c.view(p.items[0], c.old_heap) for p in rules]
+            # representation invariant of the skeleton (established by __init__, kept by add): registered thresholds are pairwise different
+            return c.And(*[ths[a].r != ths[b].r for a in range(n) for b in range(a + 1, n)])
+
+        def writes(c, self, rule, supply):
+            return []
+
+        def ensures(c, self, rule, supply, result):
+            ctx = c.ctx
+            old = ctx.ghost["c08_rules"]
+            rules, tset = ctx.ghost["c08_displays"]
+            same_lists = c.And(_bb(ctx.from_val(_SV(self.rules.t, TAny())) is rules), _bb(ctx.from_val(_SV(self._thresholds.t, TAny())) is tset), c.unchanged(self, "base"))
+            if not with_rule:
+                from pyvc.values import PartialFn, BoundMethod
+                r = ctx.from_val(_SV(result.t, TAny()))
+                ok = isinstance(r, PartialFn) and isinstance(r.fn, BoundMethod) and r.fn.fn.key == STEP + ":UnboundStepwise.add" and not r.args and list(r.kwargs) == ["supply"]
+                return {"a-threshold-already-registered-is-rejected-at-once": c.Not(_ustep_dup(c, n, supply)),
+                        "nothing-is-registered-yet": c.And(_bb(len(rules.items) == n and all(a is b for a, b in zip(rules.items, old))), _bb(len(tset.items) == n), same_lists),
+                        "the-result-is-add-of-this-skeleton-with-the-threshold-pre-set":
+                            c.And(ctx.to_val(r.fn.self_val).t == self.t, ctx.to_val(r.kwargs["supply"]).t == supply.t) if ok else False}
+            last = rules.items[-1] if rules.items else None
+            appended = len(rules.items) == n + 1 and all(a is b for a, b in zip(rules.items, old)) and isinstance(last, _VT) and len(last.items) == 2
+            return {"the-pair-is-appended-and-all-earlier-pairs-stay-in-order": c.And(ctx.to_val(last.items[0]).t == supply.t, ctx.to_val(last.items[1]).t == rule.t, same_lists) if appended else False,
+                    "the-threshold-is-recorded": c.And(_bb(len(tset.items) == n + 1), ctx.to_val(tset.items[-1]).t == supply.t) if len(tset.items) == n + 1 else False,
+                    "the-rule-itself-is-returned": result.t == rule.t,
+                    "a-threshold-already-registered-is-never-registered-again": c.Not(_ustep_dup(c, n, supply))}
+
+        raises = {"ValueError": lambda c, self, rule, supply, exc: c.And(_ustep_dup(c, n, supply), _bb(len(c.ctx.ghost["c08_displays"][0].items) == n), _bb(len(c.ctx.ghost["c08_displays"][1].items) == n))}
+    return add
+
+
+def _bb(x):
+    return z3.BoolVal(bool(x)) if isinstance(x, bool) else x
+
+
+def _ustep_dup(c, n, supply):
+    rules = c.ctx.ghost["c08_rules"]
+    ths = [c.view(p.items[0], c.old_heap) for p in rules]
+    return c.Or(*[t.r == supply.r for t in ths]) if n else False
+
+
+for _n, _wr in [(0, True), (1, True), (2, True), (3, True), (1, False), (2, False)]:
+    contract(STEP + ":UnboundStepwise.add#rules(%d)%s" % (_n, "" if _wr else "+decorator-form"), props=["C08"])(_mk_ustep_add(_n, _wr))
+
+
+@contract(STEP + ":UnboundStepwise.__init__", props=["C08"])
+class ustep_init:
+    """a fresh skeleton holds the base rule and NO registered rule or threshold (each instance its own empty list / set)"""
+    new_object = "self"
+    params = {"self": UStepw, "base": Rule}
+
+    def writes(c, self, base):
+        return [(self, f) for f in ("base", "rules", "_thresholds")]
+
+    def ensures(c, self, base):
+        from pyvc.values import VSet as _VS
+        ctx = c.ctx
+        rules = ctx.from_val(_SV(self.rules.t, TAny()))
+        tset = ctx.from_val(_SV(self._thresholds.t, TAny()))
+        return {"holds-the-base-rule": self.base.t == base.t,
+                "no-rule-and-no-threshold-registered": _bb(isinstance(rules, _VL) and not rules.items and isinstance(tset, _VS) and not tset.items)}
+
+
+# ---- DemandSwitch.__init__: what it refuses (slaves "are re-targeted and validated") -----------------------------------------------------
+IE = "cobald.utility:InvariantError"
+SwitchAnyTable = TObj(SW + ":DemandSwitch", target=Pool, _default=Slave, _slaves=TAny(), interval=NumFin)
+
+
+def _mk_switch_rejects(what):
+    class rejects:
+        __doc__ = {"odd-1": "a threshold without a controller (1 positional after default)", "odd-3": "three positionals after default (one pair and a lone threshold)",
+                   "text-threshold": "a (text, controller) pair", "controller-as-threshold": "a (controller, controller) pair",
+                   "foreign-slave": "one pair whose controller already acts on ANOTHER pool", "foreign-default": "a default controller that already acts on ANOTHER pool",
+                   "foreign-slave-of-2": "two pairs, one controller already acting on ANOTHER pool"}[what] + \
+            ": InvariantError, never a switch; no controller that existed before is touched (nothing is re-targeted before validation ends)"
+        body_key = SW + ":DemandSwitch.__init__"
+        new_object = "self"
+        never_returns = True
+        has_events = True
+
+        def _slaves(ctx):
+            th = lambda k: ctx.typed(z3.Const("p_slaves_threshold%d" % k, Z.Val), NumFin)
+            if what == "odd-1":
+                return _VT([th(0)])
+            if what == "odd-3":
+                return _VT([th(0), _sym_slave(ctx, 0), th(1)])
+            if what == "text-threshold":
+                return _VT([ctx.typed(z3.Const("p_slaves_text", Z.Val), TStr()), _sym_slave(ctx, 0)])
+            if what == "controller-as-threshold":
+                return _VT([_sym_slave(ctx, 1), _sym_slave(ctx, 0)])
+            if what == "foreign-slave-of-2":
+                return _VT([th(0), _sym_slave(ctx, 0), th(1), _sym_slave(ctx, 1)])
+            return _VT([th(0), _sym_slave(ctx, 0)])
+        # (text / controller in a threshold's place: the table attribute holds, for a moment, pairs that are NOT (number, controller) - no shape is assumed for it)
+        params = {"self": SwitchAnyTable if what in ("text-threshold", "controller-as-threshold") else Switch, "target": Pool, "default": Slave, "*slaves": _slaves, "interval": NumFin}
+
+        def requires(c, self, target, default, slaves, interval):
+            ctls = [x for x in slaves if getattr(getattr(x, "ty", None), "name", None) == "Controller"]
+            distinct = [ctls[a].t != ctls[b].t for a in range(len(ctls)) for b in range(a + 1, len(ctls))] + [x.t != default.t for x in ctls]
+            foreign = lambda x: c.And(c.Not(Z.is_none(x.target.t)), x.target.t != target.t)
+            extra = []
+            if what == "foreign-slave":
+                extra = [foreign(ctls[0])]
+            elif what == "foreign-default":
+                extra = [foreign(default)]
+            elif what == "foreign-slave-of-2":
+                extra = [c.Or(foreign(ctls[0]), foreign(ctls[1]))]
+            return c.And(*distinct, *extra)
+
+        def writes(c, self, target, default, slaves, interval):
+            return [(self, f) for f in ("target", "_default", "_slaves", "interval")]
+
+        raises = {IE: lambda c, self, target, default, slaves, interval, exc: True}
+        if what == "foreign-slave-of-2":
+            raises["TypeError"] = lambda c, self, target, default, slaves, interval, exc: slaves[0].r == slaves[2].r
+    return rejects
+
+
+for _w in ("odd-1", "odd-3", "text-threshold", "controller-as-threshold", "foreign-slave", "foreign-default", "foreign-slave-of-2"):
+    contract(SW + ":DemandSwitch.__init__#rejects-%s" % _w, props=["C08"])(_mk_switch_rejects(_w))
